@@ -132,6 +132,37 @@ def accepted_set_check(b, prop, seed, tier, is_bad):
         i, t = e[0], e[-1]
         if t not in have and R.is_closed(t):
             progs.append(("eq:" + str(i), t))
+    # ILL-TYPED neighbours of well-typed programs: single-edit mutants of generated closed programs (a case branch
+    # removed, a label changed, a use deleted / duplicated, payload and continuation swapped, ...).  The model rejects most
+    # of them; one that the real checker accepts is run, and a run-time error is then a concrete violation.
+    nmut = 0
+    try:
+        import random as _random
+        from . import proggen
+        from . import proggen_mut
+        rng = _random.Random(seed * 7 + 5)
+        nprog, per = (40, 8) if tier == "quick" else (300, 16)
+        for k in range(nprog):
+            try:
+                pr = proggen.gen_program(rng, size=tier, closed=True, want_terminating=True)
+            except Exception:  # noqa: BLE001
+                continue
+            ms = proggen_mut.mutants(rng, pr, per)
+            for kind in ("remove-branch", "remove-branch", "change-label", "delete-use"):
+                decls = proggen_mut.clone(pr.decls)
+                try:
+                    r = proggen_mut._mutate(rng, decls, kind)
+                except (IndexError, KeyError):
+                    r = None
+                if r is not None:
+                    ms.append((kind + "/" + str(r[0]), proggen_mut._text_with_overrides(decls, pr.layout_seed), r[1]))
+            for j, (kind, text, exp) in enumerate(ms):
+                if text not in have and text != pr.text and R.is_closed(text):
+                    have.add(text)
+                    progs.append(("mut:%d:%d:%s" % (k, j, kind.split("/")[0]), text))
+                    nmut += 1
+    except ImportError:
+        pass
     cases = [(i, "", t) for i, t in progs]
     first = lambda x: x.split("\t")[0].split(" ")[0]
     impl, model, mism = S.correspond(b, "tc", cases, project=first, timeout=1800)
@@ -153,6 +184,6 @@ def accepted_set_check(b, prop, seed, tier, is_bad):
         vio.append(C.Violation("the real checker accepts %d program(s) the model rejects (e.g. %s); no run-time error was observed on them" % (len(wider), i),
                                {"property": prop, "kind": "unproven", "no_longer_checks": [{"what": "correspondence (accepted sets)", "detail": t[:1500]}]}, found_input=False))
     narrower = [i for i, _, t, a, m in mism if first(m) == "ACCEPT" and first(a) != "ACCEPT"]
-    cov = {"accepted_set_programs": len(progs), "accepted_by_both": sum(1 for i, _ in progs if first(impl.get(i, "")) == "ACCEPT" and first(model.get(i, "")) == "ACCEPT"),
+    cov = {"accepted_set_programs": len(progs), "accepted_set_mutants": nmut, "accepted_by_both": sum(1 for i, _ in progs if first(impl.get(i, "")) == "ACCEPT" and first(model.get(i, "")) == "ACCEPT"),
            "accepted_by_implementation_only": len(wider), "accepted_by_model_only": len(narrower)}
     return cov, vio
